@@ -63,6 +63,14 @@ def _known():
 def run_property(prop: str, tier: str) -> int:
     t0 = time.time()
     os.chdir(ROOT)
+    os.environ["PYVC_RUN_ID"] = str(os.getpid())
+    import glob
+
+    for f in glob.glob(os.path.join(ROOT, "out", "replay", ".scenario_*")):
+        try:
+            os.unlink(f)
+        except OSError:
+            pass
     _load_manifest_levels()
     seed = int(os.environ.get("VERIF_SEED", "0") or 0)
     timeout_ms = 10000 if tier == "quick" else 120000
